@@ -147,7 +147,13 @@ _c("C20",
    "schedule): if every store of every protocol stores the completely computed value, every thread that returns, returns the value "
    "it returns alone (C20_cache_final_safe, C20_cache_final_alone; invariant over all schedules); a protocol whose first store puts "
    "anything else into the slot (a placeholder, a partial value) has a constructed schedule under which a second thread returns that "
-   "value (C20_cache_placeholder_witness); the decidable classification is sound both ways (C20_cache_classified_safe/_racy). "
+   "value (C20_cache_placeholder_witness); the decidable classification is sound both ways (C20_cache_classified_safe/_racy); a "
+   "thread scheduled often enough HAS returned the computed value (C20_cache_final_complete); the slots of different keys are "
+   "independent, so all of this holds for the whole dictionary (C20_cache_keys_independent, C20_cache_keyed_final_safe). (3) Several "
+   "fields / nested classes (Global/Compose.v, ClassModel.v): safety composes over disjoint cells and is invariant under renaming of "
+   "cells (C20_compose_safe, C20_shift_invariant), hence a class all of whose fields' generated access lists are classified safe is "
+   "safe under every interleaving of operations that validate all its fields (C20_class_safe_all_schedules; decided per class "
+   "profile in vm_compute and required to agree with the per-field verdicts). "
    "Generated every run from the AST: the ordered accesses of every collection validator to attributes of shared Field objects "
    "(Gen/SharedAccess.v), the protocol of every module-level container mutated inside a function, of every lru_cache function and of "
    "every lazily installed Field attribute, and the attributes functions install on class objects (Gen/CacheAccess.v); both tables "
